@@ -302,6 +302,15 @@ def correspondence(ctx, spec):
         ensure_real(profile)
     results = coq_mismatches_multi(groups)
     shrunk = 0
+    sc = [sum(g.get("scope", [0, 0, 0])[j] for g in groups) for j in range(3)]
+    ctx.scope = {
+        "scripts": sc[2], "within_list_machine_scope": sc[0],
+        "implementation_equals_list_machine_directly": sc[1],
+        "note": "Refine.vm_refines_list_machine: on these scripts the compared model IS the list-of-symbols "
+                "reference interpreter; the rest use operations outside it (see DESIGN 4b)"}
+    if sc[1] != sc[0] and not any(m for m, _ in results):
+        raise CheckError("list machine and bit-level model disagree although the refinement theorem is proved: "
+                         "codec_ok must have failed for a codec (see the C05 obligations)")
     for g, (mis, model) in zip(groups, results):
         ctx.obligations += 1
         if not mis:
@@ -381,6 +390,7 @@ def write_evidence(ctx, spec, wall):
                                  "distinct script texts with at least two operations"),
         "samples": ctx.samples[:6] or [{"note": "table/instance obligations only"}],
         "theorems": spec.get("theorems", []),
+        "refinement_scope": getattr(ctx, "scope", None),
         "generator_distribution": {k: v for k, v in sorted(ctx.dist.items()) if not k.startswith("op/")},
         "ops_exercised": {k[3:]: v for k, v in sorted(ctx.dist.items()) if k.startswith("op/")},
         "notes": ctx.notes + spec.get("notes", []),
